@@ -100,12 +100,21 @@ func checkCurrentNamespaceHasRelation(current *namespace, relation item) typeChe
 func checkAllRelationsTypesHaveRelation(current *namespace, relationType item, relation string) typeCheck {
 	namespace := current.Name
 	return func(p *parser) {
-		recursiveCheckAllRelationsTypesHaveRelation(p, relationType, namespace, relationType.Val, relation, tupleToSubjectSetTypeCheckMaxDepth)
+		recursiveCheckAllRelationsTypesHaveRelation(p, relationType, namespace, relationType.Val, relation, tupleToSubjectSetTypeCheckMaxDepth, map[[2]string]struct{}{})
 	}
 }
 
-func recursiveCheckAllRelationsTypesHaveRelation(p *parser, item item, namespace string, relationType string, relation string, depth int) {
+// recursiveCheckAllRelationsTypesHaveRelation checks that all types of
+// namespace#relationType have the relation. The visited set contains the
+// (namespace, relation type) pairs that were already checked, so that every
+// pair is expanded at most once: unions of subject sets that refer to each
+// other would otherwise be expanded (number of union members)^depth times.
+func recursiveCheckAllRelationsTypesHaveRelation(p *parser, item item, namespace string, relationType string, relation string, depth int, visited map[[2]string]struct{}) {
 	verifhook.Point("tc.rec")
+	if _, ok := visited[[2]string{namespace, relationType}]; ok {
+		return
+	}
+	visited[[2]string{namespace, relationType}] = struct{}{}
 	if depth < 0 {
 		p.addErr(item, "could not typecheck deeply nested SubjectSet further")
 		return
@@ -126,7 +135,7 @@ func recursiveCheckAllRelationsTypesHaveRelation(p *parser, item item, namespace
 			// Type is a subject set, we need to recursively check if the type has
 			// the required relation.
 			recursiveCheckAllRelationsTypesHaveRelation(
-				p, item, t.Namespace, t.Relation, relation, depth-1)
+				p, item, t.Namespace, t.Relation, relation, depth-1, visited)
 		}
 	}
 }
